@@ -51,11 +51,21 @@ QJsonObject generate()
     c["fresh"] = chance(2);
     QJsonArray attrs;
     QStringList names;
+    bool nearMiss = false;
     int n = sized(0, 8);
     for (int i = 0; i < n; i++) {
         StrOpts no;
         no.maxLen = 8;
         QString name = chance(60) ? QString::fromLatin1(genAscii(8, true)) : genString(no, &used);
+        if (chance(12)) {
+            // near misses of the built-in names (JSON keys are case sensitive, so none of these shadows a built-in field): another letter
+            // case, a built-in name as prefix / suffix, surrounding blanks, the snake/camel twin
+            static const char *near[] = { "Message", "MESSAGE", "Type", "TYPE", "Line", "File", "FILE", "Function", "Category", "Time", "threadid",
+                                          "ThreadId", "THREADID", "thread_id", "message_id", "messages", "filetype", "timeout", "time ", " type",
+                                          "line0", "mess", "typ", "categor", "func", "msg", "level", "timestamp" };
+            name = QString::fromLatin1(near[pick(0, int(sizeof near / sizeof near[0]) - 1)]);
+            nearMiss = true;
+        }
         bool builtin = false;
         for (auto b : kBuiltins) if (name == QLatin1String(b)) builtin = true;
         if (builtin || names.contains(name)) continue;
@@ -67,6 +77,7 @@ QJsonObject generate()
     c["attrs"] = attrs;
     c["usedClasses"] = int(used);
     c["nested"] = nested;
+    c["nearMiss"] = nearMiss;
     return c;
 }
 
@@ -210,6 +221,7 @@ std::string run(const QJsonObject &c)
     const bool hard = used & ((1u << SC_CONTROL) | (1u << SC_JSONSYNTAX) | (1u << SC_ASTRAL));
     for (int k = 0; k < SC_COUNT; k++) cls(std::string("class_") + strClassName(k), used & (1u << k));
     cls("nested_container", c["nested"].toBool());
+    cls("attribute_name_near_a_built_in_field_name", c["nearMiss"].toBool());
     cls("compact", compactExpected);
     cls("via_pipeline", via == "pipeline");
     cls("via_instance", via == "instance");
